@@ -33,14 +33,15 @@ EXTENDS FanoutObs, TLC
 CONSTANTS MaxP,          \* pipelines
           ProcSeqs,      \* offered processor chains  (sequences of BOOLEAN = declared MutatesData)
           ExpSeqs,       \* offered leaf-exporter lists (sequences of BOOLEAN)
-          WithConn       \* BOOLEAN: offer connectors
+          WithConn,      \* BOOLEAN: offer connectors
+          UndeclSet      \* subset of BOOLEAN: values offered for the run flag undecl
 
 VARIABLES np, procs, exps, conn, connMut, rcv,     \* configuration (rcv = pipelines of the shared receiver)
           sender, undecl,                          \* the run: 0 = shared receiver, p = probe receiver of p
-          pos, objOf, leaves, gphase               \* position in the timeline TL being played
+          tl, pos, objOf, leaves, gphase           \* the timeline of the run and the position up to which it was played
 
 cfgVars == <<np, procs, exps, conn, connMut, rcv>>
-gVars == <<cfgVars, sender, undecl, pos, objOf, leaves, gphase>>
+gVars == <<cfgVars, sender, undecl, tl, pos, objOf, leaves, gphase>>
 vars == <<obsVars, gVars>>
 
 MaxObj == 4 * MaxP + 2
@@ -93,17 +94,20 @@ LeafExec(S, o, p, i) ==
     LET c == LeafIdx(S.leaves, p, i)
         S1 == Emit([S EXCEPT !.objOf[c] = o], "deliver", c, 0, FALSE, FALSE, o)
     IN IF exps[p][i] THEN LeafMutate(S1, c, 1) ELSE S1
-StageExec(S, o, decl, m) ==
-    Emit(IF decl THEN MutCell(S, o, m) ELSE S, "proc", 0, 0, decl /\ S.heap[o].ro, decl, o)
+(* a processor / connector stage: `acts` = it writes its marker; `decl` = what it is DECLARED to its upstream
+   fan-out as: for a processor its own MutatesData, for a connector the aggregate (itself or a pipeline it
+   feeds advertises mutation) -- it "may mutate" the payload by handing it to such a pipeline *)
+StageExec(S, o, decl, acts, m) ==
+    Emit(IF acts THEN MutCell(S, o, m) ELSE S, "proc", 0, 0, acts /\ S.heap[o].ro, decl, o)
 
 RECURSIVE ProcFold(_, _, _, _), MutFold(_, _, _, _, _), RoFold(_, _, _, _), FanExec(_, _, _), TargetExec(_, _, _)
 ProcFold(S, o, p, i) == IF i > Len(procs[p]) THEN S
-                        ELSE ProcFold(StageExec(S, o, procs[p][i], ProcMark(p, i)), o, p, i + 1)
+                        ELSE ProcFold(StageExec(S, o, procs[p][i], procs[p][i], ProcMark(p, i)), o, p, i + 1)
 TargetExec(S, o, t) ==
     CASE t.kind = "leaf" -> LeafExec(S, o, t.p, t.i)
       [] t.kind = "pipe" -> FanExec(ProcFold(S, o, t.p, 1), o, ExpTargets(t.p))
       [] t.kind = "conn" -> LET qs == SetToSeq(conn[t.p])
-                            IN FanExec(StageExec(S, o, connMut[t.p], ConnMark(t.p)), o,
+                            IN FanExec(StageExec(S, o, Cap(t), connMut[t.p], ConnMark(t.p)), o,
                                        [k \in 1..Len(qs) |-> Target("pipe", qs[k], 0)])
 CloneCell(S, o) == LET no == S.nobj + 1
                    IN [S EXCEPT !.nobj = no, !.heap[no] = [content |-> S.heap[o].content, ro |-> FALSE]]
@@ -144,7 +148,7 @@ EmptyHeap == [o \in 0..MaxObj |-> [content |-> {}, ro |-> FALSE]]
 
 Init ==
     /\ np = 0 /\ procs = <<>> /\ exps = <<>> /\ conn = <<>> /\ connMut = <<>> /\ rcv = {}
-    /\ sender = 0 /\ undecl = FALSE /\ pos = 0 /\ leaves = <<>> /\ gphase = "config"
+    /\ sender = 0 /\ undecl = FALSE /\ tl = <<>> /\ pos = 0 /\ leaves = <<>> /\ gphase = "config"
     /\ objOf = [c \in 1..MaxN |-> 0]
     /\ n = 0 /\ mut = [c \in 1..MaxN |-> FALSE] /\ fail = [c \in 1..MaxN |-> FALSE]
     /\ roIn = FALSE /\ adv = FALSE
@@ -154,7 +158,7 @@ Init ==
     /\ last = [kind |-> "config", c |-> 0, k |-> 0, panicked |-> FALSE, before |-> view, heldBefore |-> {}]
 
 ObsSame == UNCHANGED obsVars
-RunSame == UNCHANGED <<sender, undecl, pos, objOf, leaves>>
+RunSame == UNCHANGED <<sender, undecl, tl, pos, objOf, leaves>>
 
 (* pipelines are added with their processors and leaf exporters; connectors point to later pipelines *)
 AddPipeline ==
@@ -182,7 +186,7 @@ Wire ==                                                       \* choose the pipe
 
 Send ==
     /\ gphase = "wired"
-    /\ \E s \in 0..np, ro \in BOOLEAN, u \in BOOLEAN :
+    /\ \E s \in 0..np, ro \in BOOLEAN, u \in UndeclSet :
           /\ UniquePaths(s) /\ LeavesOf(s) # <<>>
           /\ sender' = s /\ undecl' = u /\ roIn' = ro
           /\ leaves' = LeavesOf(s)
@@ -190,19 +194,17 @@ Send ==
           /\ mut' = [c \in 1..MaxN |-> c <= n' /\ leaves'[c].mut]
           /\ sentTo' = [c \in 1..MaxN |-> IF c <= n' THEN ToSet(leaves'[c].path) ELSE {}]
           /\ pre' = sentTo'
+          /\ tl' = RunTimeline(s, ro, u)
           /\ view' = Views([EmptyHeap EXCEPT ![0].ro = ro], objOf, {})
           /\ last' = [kind |-> "call", c |-> 0, k |-> 0, panicked |-> FALSE, before |-> view', heldBefore |-> {}]
     /\ adv' = FanCap(TopTargets(sender'))
     /\ pos' = 1 /\ phase' = "calling" /\ gphase' = "run"
     /\ UNCHANGED <<cfgVars, objOf, fail, origProc, held, dlv, ret>>
 
-(* the timeline is a function of the configuration and the run parameters; it is recomputed rather than
-   stored so that states stay small *)
-TL == RunTimeline(sender, roIn, undecl)
+(* the timeline is kept in the state: recomputing it at every played step is ~6x slower in TLC *)
 Play ==
-    /\ gphase = "run"
-    /\ LET tl == TL IN pos <= Len(tl) /\
-       LET e == tl[pos]
+    /\ gphase = "run" /\ pos <= Len(tl)
+    /\ LET e == tl[pos]
            hs == IF e.kind = "deliver" THEN held \cup {e.c} ELSE held
        IN /\ held' = hs
           /\ objOf' = e.objOf
@@ -212,9 +214,9 @@ Play ==
           /\ phase' = IF e.kind = "return" THEN "returned" ELSE phase
           /\ last' = [kind |-> e.kind, c |-> e.c, k |-> e.k, panicked |-> e.panicked, before |-> view, heldBefore |-> held]
     /\ pos' = pos + 1
-    /\ UNCHANGED <<cfgVars, sender, undecl, leaves, gphase, n, mut, fail, roIn, adv, sentTo, pre, ret>>
+    /\ UNCHANGED <<cfgVars, sender, undecl, tl, leaves, gphase, n, mut, fail, roIn, adv, sentTo, pre, ret>>
 
 Next == AddPipeline \/ AddConnector \/ Wire \/ Send \/ Play
 Spec == Init /\ [][Next]_vars
-Finished == gphase = "run" /\ pos > Len(TL)
+Finished == gphase = "run" /\ pos > Len(tl)
 =============================================================================
